@@ -103,9 +103,11 @@ class Gen:
             h = r.choice(sorted(self.alive))
             t = r.choice([t for t in self.types if t in (0, 1, 2, 3, 4, 7)] or [0])
             self.emit('OP %d excl %d %d %d' % (self.owner[h], h, t, r.choice([0, 1, 1])))
-        elif k == 'asset':
+        elif k == 'asset' and p in self.setup_done:
+            # (a peer that is not yet connected would announce the asset only if its event is still in
+            #  the engine's event buffers when it connects: wall-clock dependent, kept out)
             kind = r.choice([0, 0, 1, 2, 3])
-            a = 10 * (kind + 1) + r.randint(1, 3)      # ids of different kinds never collide (random uuids in practice)
+            a = 100 * (kind + 1) + 10 * p + r.randint(1, 3)   # ids of different kinds never collide (random uuids in practice); one publisher per id (no conflicting overwrites)
             self.emit('OP %d addasset %d %d %d' % (p, kind, a, self.fresh_val()))
         elif k == 'asseti':
             self.emit('OP %d addasset_index %d %d' % (p, r.choice([0, 1, 2, 3]), self.fresh_val()))
@@ -176,7 +178,7 @@ class Gen:
             self.emit('ROUND %d' % r.randint(10, 16))
             for _ in range(4):
                 self.op()
-                self.frames()
+                self.emit('DRAIN 60')      # writes resumed on either side, one at a time
         if self.profile == 'assets':
             self.emit('SLEEP 60')
         self.emit('DRAIN 80')
